@@ -6,7 +6,7 @@ import numpy as np
 from mc import history
 
 PROPERTY = "C12"
-RANGES = [(0, 0.3), (0, 1), (0.0, 1.0), (-0.5, 0.7), (0.1, 0.8)]
+RANGES = [(0, 0.3), (0, 1), (0.0, 1.0), (-0.5, 0.7), (0.1, 0.8), (0, 1.00001), (0.2, 0.79999)]
 PIXELS = [0.1, 0.2, 0.3, 1.0 / 3.0, 0.7, 1]
 DATA = {
     "a": [[[0.0, 1.0], [0.5, 1.2]]],
@@ -16,8 +16,8 @@ DATA = {
 SIGMA_STD = 0.0025  # narrow probe kernel: (smallest pixel)/40
 RULE = (
     "BFS over configuration histories of REAL PersistenceImager objects: initial states = all "
-    "constructor products birth_range x pers_range x pixel_size (5x5x6) + defaults; operations = "
-    "birth_range=r (5), pers_range=r (5), pixel_size=s (6), fit(D) for 3 data sets x skew on/off (6), fit_transform(D) for 2 data sets x skew on/off (4); "
+    "constructor products birth_range x pers_range x pixel_size (7x7x6; ranges include extents just above / below a multiple of the pixel) + defaults; operations = "
+    "birth_range=r (7), pers_range=r (7), pixel_size=s (6), fit(D) for 3 data sets x skew on/off (6), fit_transform(D) for 2 data sets x skew on/off (4); "
     "depth 2 (quick) / 4 (thorough); states de-duplicated on the public geometry "
     "(ranges, width, height, resolution, pixel_size) with differential continuation of merged states. "
     "Every state: resolution*pixel = width/height = range extents, transform shape = resolution, "
